@@ -2006,3 +2006,106 @@ func c08r21(rc *core.RC) {
 		rc.Check(good, key, fd.Pos(), "isBoxedValue answers yes for the program of a pointer-shaped array (an ArrayCode whose type is of array kind)")
 	}
 }
+
+// ---- C08.R22 a re-slice beyond the length is guarded by the capacity that is left ----
+
+// AppendByteSlice encodes base64 text in place: buf = b[pos : pos+n] reaches beyond len(b) into the spare capacity.
+// That is in range only when cap(b) - pos >= n: the guard has to compare n with the capacity that is left behind
+// pos (cap(b[pos:]), cap(b)-pos), not with the capacity of the whole buffer: a member that straddles the end of the
+// pooled output buffer otherwise panics with slice bounds out of range.
+func c08r22(rc *core.RC) {
+	p := rc.P
+	n := 0
+	for _, fd := range p.Funcs("encoder") {
+		if fd.Body == nil {
+			continue
+		}
+		info := p.Info(fd)
+		fn := p.FuncName(fd)
+		k := 0
+		ast.Inspect(fd.Body, func(m ast.Node) bool {
+			se, ok := m.(*ast.SliceExpr)
+			if !ok || se.Low == nil || se.High == nil {
+				return true
+			}
+			if t := info.TypeOf(se.X); t == nil || t.String() != "[]byte" {
+				return true
+			}
+			// x[lo : lo+n]
+			hi, isSum := core.Unparen(se.High).(*ast.BinaryExpr)
+			if !isSum || hi.Op != token.ADD {
+				return true
+			}
+			lo := core.ObjOf(info, se.Low)
+			if lo == nil || core.ObjOf(info, hi.X) != lo {
+				return true
+			}
+			// lo is the length of x at some point (lo := len(x)): the slice reaches into the spare capacity
+			def := singleDef(info, fd.Body, lo)
+			if c, isCall := core.Unparen(def).(*ast.CallExpr); def == nil || !isCall || !core.IsBuiltin(info, c, "len") {
+				return true
+			}
+			k++
+			n++
+			rc.Touch(fn)
+			key := fmt.Sprintf("%s/extension#%d guarded-by-the-capacity-left", fn, k)
+			xobj := core.ObjOf(info, se.X)
+			nobj := core.ObjOf(info, hi.Y)
+			// capacity-left expressions: cap(x[lo:]), cap(x)-lo, or a variable defined as one of them
+			var isCapLeft func(e ast.Expr, d int) bool
+			isCapLeft = func(e ast.Expr, d int) bool {
+				e = core.Unparen(e)
+				switch v := e.(type) {
+				case *ast.CallExpr:
+					if core.IsBuiltin(info, v, "cap") && len(v.Args) == 1 {
+						if s2, isSl := core.Unparen(v.Args[0]).(*ast.SliceExpr); isSl && core.ObjOf(info, s2.X) == xobj && s2.Low != nil && core.ObjOf(info, s2.Low) == lo && s2.High == nil {
+							return true
+						}
+					}
+				case *ast.BinaryExpr:
+					if v.Op == token.SUB && core.ObjOf(info, v.Y) == lo {
+						if c, isCall := core.Unparen(v.X).(*ast.CallExpr); isCall && core.IsBuiltin(info, c, "cap") && len(c.Args) == 1 && core.ObjOf(info, c.Args[0]) == xobj {
+							return true
+						}
+					}
+				case *ast.Ident:
+					if d < 2 {
+						if dd := singleDef(info, fd.Body, core.ObjOf(info, v)); dd != nil {
+							return isCapLeft(dd, d+1)
+						}
+					}
+				}
+				return false
+			}
+			guarded := false
+			seen := ""
+			for _, c := range condChainNodes(fd, se) {
+				if !c.pos {
+					continue
+				}
+				for _, cj := range conjuncts(c.cond) {
+					be, isBin := core.Unparen(cj).(*ast.BinaryExpr)
+					if !isBin {
+						continue
+					}
+					seen = core.Src(p.Fset, cj)
+					switch be.Op {
+					case token.GTR, token.GEQ:
+						if isCapLeft(be.X, 0) && core.ObjOf(info, be.Y) == nobj && nobj != nil {
+							guarded = true
+						}
+					case token.LSS, token.LEQ:
+						if isCapLeft(be.Y, 0) && core.ObjOf(info, be.X) == nobj && nobj != nil {
+							guarded = true
+						}
+					}
+				}
+			}
+			rc.Check(guarded, key, se.Pos(), "the re-slice %s, which reaches beyond len(%s), stands under a test that compares %s with the capacity left behind %s (cap(x[lo:]) or cap(x)-lo); the condition found is `%s`: the capacity of the whole buffer says nothing about the room behind what is already written", core.Src(p.Fset, se), xobj.Name(), core.Src(p.Fset, hi.Y), lo.Name(), seen)
+			return true
+		})
+	}
+	if n < 1 {
+		rc.Unknown("encoder/extensions", token.NoPos, "no re-slice of the form x[len : len+n] found in the encoder (confirmed: AppendByteSlice)")
+	}
+}
